@@ -229,3 +229,7 @@ contract(AR + 'UserArguments.shallow_copy#arrays', props=['C13'], params=dict(se
 MEMBERS_TRANSFER = ("forall(lambda l_a, l_b, k: implies(not isnone(l_a) and not isnone(l_b) and eqcontent(l_a, l_b) and "
                     "members_ok(l_b, {labels}, k), members_ok(l_a, {labels}, k)), pat=(len(l_a), len(l_b), cnt({labels}, k, len({labels}))))")
 SQUARE_UNIQUE = "forall(lambda a, b: implies(a >= 0 and b >= 0 and a*(a + 1) == b*(b + 1), a == b))"
+
+# every reference reachable from the state exists now (needed to tell the state apart from objects allocated later)
+specfn('closed_model', "lambda m: allocated(m) and allocated(m.clusters) and allocated(m._point_labels) and "
+       "forall(0, len(m.clusters), lambda k: allocated(m.clusters[k]) and allocated(m.clusters[k]._member_points))")
